@@ -200,10 +200,11 @@ Definition old_plain (s : st) : comm val := match x_d s with Some v => CVal v | 
 Definition set_x (v : val) (s : st) : st * outcome :=
   (set_x_d (Some v) (mod_x (old_plain s) s), Done RNone).
 
+(* the AttributeError for an attribute without a value is raised before any event is recorded *)
 Definition del_x (s : st) : st * outcome :=
-  let s1 := set_x_d None (mod_x (old_plain s) s) in
   if negb (is_some (x_d s)) && negb (expired s) && negb (x_e s)
-  then (s1, Fail AttributeError) else (s1, Done RNone).
+  then (s, Fail AttributeError)
+  else (set_x_d None (mod_x (old_plain s) s), Done RNone).
 
 Definition of_gres (r : gres val) : ret := match r with GVal v => RVal v | _ => RNone end.
 Definition read {A} (f : A -> ret) (sr : st * gres A) : st * outcome :=
@@ -281,9 +282,8 @@ Definition c_rem (k : ckind) (o : val) (s : st) : st * outcome :=
   if negb ok then (s1, Fail Unreachable) else
   let cur := cur_coll s1 in
   match k with
-  | KList => let s2 := coll_event s1 in
-             if memb o cur then (set_c_d (Some (remove1 o cur)) s2, Done RNone)
-             else (s2, Fail ValueError)
+  | KList => if memb o cur then (set_c_d (Some (remove1 o cur)) (coll_event s1), Done RNone)
+             else (s1, Fail ValueError)
   | KSet => if memb o cur then (set_c_d (Some (remove1 o cur)) (coll_event s1), Done RNone)
             else (s1, Fail KeyError)
   | KDict => match holder o cur with
@@ -486,12 +486,13 @@ Definition sync_b (s : st) : option val :=
   end.
 
 (* _collect_update_commands: x is sent when its committed value differs from the current one *)
+(* state_dict.get(propkey, None): a deleted attribute is sent as NULL *)
 Definition upd_x (s : st) : option val :=
-  match x_c s, x_d s with
-  | NoHist, _ => None
-  | CVal p, Some v => if v =? p then None else Some v
-  | _, Some v => Some v
-  | _, None => None
+  let v := opt_or (x_d s) 0 in
+  match x_c s with
+  | NoHist => None
+  | CVal p => if v =? p then None else Some v
+  | _ => Some v
   end.
 
 Definition insert_row (nb : option val) (s : st) : st :=
@@ -518,8 +519,6 @@ Definition flush (s : st) : st * outcome :=
   if negb (persistent s) then
     let s2 := finish_flush (insert_row nb s) in (s2, Done (db_ret s2))
   else
-    (* UPDATE: _collect_update_commands indexes state_dict with every key of committed_state *)
-    if negb (is_nohist (x_c s)) && negb (is_some (x_d s)) then (s, Fail KeyError) else
     let s4 := finish_flush (update_row nb s) in (s4, Done (db_ret s4)).
 
 (* ---------------- operations ---------------- *)
